@@ -359,6 +359,22 @@ def parse_answer(line):
 
 
 # ------------------------------------------------------------------ comparison
+class TOL:
+    """relative tolerance once an inexact operation (make_density, averaging) has run.  An object whose edges the
+    caller gave in single precision (float32 array) is entitled to single-precision arithmetic wherever the widths
+    enter (numpy keeps float32 in float32-with-Python-scalar expressions), everything else is held to 1e-11."""
+    rel = 1e-11
+    integral = 1e-9
+
+
+def set_precision(ctor_or_hist):
+    h = make_hist(ctor_or_hist) if isinstance(ctor_or_hist, (tuple, list)) else ctor_or_hist
+    single = getattr(h.bin_edges_, "dtype", None) == np.float32
+    TOL.rel = 1e-6 if single else 1e-11
+    TOL.integral = 1e-6 if single else 1e-9
+    return single
+
+
 def feq(a, b, exact):
     if a != a and b != b:
         return True
@@ -366,7 +382,7 @@ def feq(a, b, exact):
         return True
     if exact:
         return False
-    return common.close(a, b, rel=1e-11, abs_=1e-300)
+    return common.close(a, b, rel=TOL.rel, abs_=1e-300)
 
 
 def rows_eq(real, model, exact):
@@ -412,6 +428,7 @@ def compare_obs(real, model, exact, arrays=("hist", "raw", "err", "scal", "sys")
 
 def compare_history(ctor, ops, answer, arrays=("hist", "raw", "err", "scal", "sys")):
     """-> (None | description of first difference, index of the op)"""
+    set_precision(ctor)
     edges0, real = run_real(ctor, ops)
     obs, spec = parse_answer(answer)
     if obs is None or len(obs) != len(ops):
@@ -553,6 +570,7 @@ def oracle_c09(ctor, ops):
     """Replays the history on the real class and checks the property with a reference recount.
     Returns None or (key, what, detail)."""
     h = make_hist(ctor)
+    set_precision(h)
     edges = [float(x) for x in h.bin_edges_]
     nb = len(edges) - 1
     if any(not (a < b) for a, b in zip(edges, edges[1:])):
@@ -676,7 +694,7 @@ def oracle_c09(ctor, ops):
             if raised is not None:
                 return ("density-raised", f"make_density raised {type(raised).__name__}", where)
             integral = sum(F(float(c)) * (F(edges[i + 1]) - F(edges[i])) for i, c in enumerate(after[0][-1]))
-            if abs(float(integral) - 1.0) > 1e-9:
+            if abs(float(integral) - 1.0) > TOL.integral:
                 uniform = len({F(edges[i + 1]) - F(edges[i]) for i in range(nb)}) == 1
                 unit = uniform and F(edges[1]) - F(edges[0]) == 1
                 cls = "unit-widths" if unit else ("uniform-non-unit-widths" if uniform else "non-uniform-widths")
@@ -687,7 +705,7 @@ def oracle_c09(ctor, ops):
             mag = [c / (tot * (F(edges[i + 1]) - F(edges[i]))) for i, c in enumerate(mag)]
             exact = False
             for i in range(nb):
-                if not abs(float(after[0][-1][i]) - float(cont[i])) <= 1e-11 * max(float(mag[i]), 1e-300):
+                if not abs(float(after[0][-1][i]) - float(cont[i])) <= TOL.rel * max(float(mag[i]), 1e-300):
                     return ("make_density-not-content-per-width",
                             f"make_density: bin {i} holds {float(after[0][-1][i])!r}, content/(total*width) is "
                             f"{float(cont[i])!r} (edges {edges})", dict(where, bin=i, edges=edges))
@@ -696,7 +714,7 @@ def oracle_c09(ctor, ops):
         gotraw = after[1][-1]
         for i in range(nb):
             if not (got[i] == float(cont[i]) if exact
-                    else abs(float(got[i]) - float(cont[i])) <= 1e-11 * max(float(mag[i]), 1e-300)):
+                    else abs(float(got[i]) - float(cont[i])) <= TOL.rel * max(float(mag[i]), 1e-300)):
                 return ("bin-content", f"bin {i} of the current histogram holds {float(got[i])!r}, the weighted number of "
                         f"values in [{edges[i]},{edges[i+1]}) times the later factors is {float(cont[i])!r}",
                         dict(where, bin=i, edges=edges))
